@@ -245,7 +245,11 @@ def distance_bin(G):
     while np.any(L):
         D += n * L
         n += 1
-        nPATH = np.dot(nPATH, G)
+        # only the support of the n-path matrix is used. Kept as walk counts it
+        # reaches inf after ~240 rounds next to a dense block of 20 nodes (~170
+        # rounds next to one of 65), then inf * 0 = nan and `nan != 0` hands the
+        # current round to every pair not reached yet, unreachable ones included.
+        nPATH = (np.dot(nPATH, G) != 0).astype(float)
         L = (nPATH != 0) * (D == 0)
 
     D[D == 0] = np.inf  # disconnected nodes are assigned d=inf
